@@ -288,7 +288,7 @@ pub fn eval_case(w: &mut Worker, c: &Case) -> Result<Outcome, String> {
             return Ok(out);
         }
     };
-    let (datas, trees, _) = super::c06::expand(&super::c06::Case { group: c.group.clone(), d0: c.d0.clone(), steps: c.steps.clone(), style: c.style });
+    let (datas, trees, _) = super::c06::expand(&super::c06::Case { group: c.group.clone(), d0: c.d0.clone(), steps: c.steps.clone(), slot_ops: vec![], style: c.style });
     let mut histories = vec![json!({"data":datas,"trees":trees})];
     for e in &c.envs {
         histories.push(json!({"data":[e.to_js()],"trees":[]}));
